@@ -130,17 +130,22 @@ static void build_rule (BusPolicyRule *r, spec_rule *s)
 
 void harness (void)
 {
-  BusClientPolicy pol; BusPolicyRule R[VERIF_N]; spec_rule S[VERIF_N]; DBusList L[VERIF_N];
+  /* rules and list nodes are separate objects (as from malloc), not array elements */
+  static BusPolicyRule R0, R1, R2; static DBusList L0, L1, L2;
+  BusPolicyRule *const Rp[3] = { &R0, &R1, &R2 }; DBusList *const Lp[3] = { &L0, &L1, &L2 };
+#define R(i) (*Rp[i])
+#define L(i) (*Lp[i])
+  BusClientPolicy pol; spec_rule S[VERIF_N];
   int v[VERIF_N], al[VERIF_N];
   int n = nondet_int (); __CPROVER_assume (n >= 0 && n <= VERIF_N);
   havoc_facts (); __CPROVER_assume (facts_ok ());
   pol.refcount = 1; pol.rules = NULL;
   for (int i = 0; i < VERIF_N; i++) if (i < n)
     {
-      build_rule (&R[i], &S[i]);
-      L[i].data = &R[i];
-      if (pol.rules == NULL) { L[i].next = L[i].prev = &L[i]; pol.rules = &L[i]; }
-      else { L[i].next = pol.rules; L[i].prev = pol.rules->prev; pol.rules->prev->next = &L[i]; pol.rules->prev = &L[i]; }
+      build_rule (&R (i), &S[i]);
+      L (i).data = &R (i);
+      if (pol.rules == NULL) { L (i).next = L (i).prev = &L (i); pol.rules = &L (i); }
+      else { L (i).next = pol.rules; L (i).prev = pol.rules->prev; pol.rules->prev->next = &L (i); pol.rules->prev = &L (i); }
     }
   dbus_bool_t ret; dbus_int32_t toggles = nondet_int (); dbus_bool_t log = nondet_int ();
   int in_g1 = 0, in_g2 = spec_in_gap_G2 (&F);
@@ -173,8 +178,8 @@ void harness (void)
 #endif
   /* frame: the policy is not modified by a check */
   { int k = nondet_int (); __CPROVER_assume (k >= 0 && k < VERIF_N);
-    if (k < n) __CPROVER_assert (pol.rules == &L[0] && L[k].data == &R[k] && L[k].next == &L[k + 1 < n ? k + 1 : 0] && L[k].prev == &L[k == 0 ? n - 1 : k - 1]
-                                 && R[k].refcount == 1 && R[k].allow == (unsigned) S[k].allow, "post3 rule list unchanged");
+    if (k < n) __CPROVER_assert (pol.rules == &L (0) && L (k).data == &R (k) && L (k).next == &L (k + 1 < n ? k + 1 : 0) && L (k).prev == &L (k == 0 ? n - 1 : k - 1)
+                                 && R (k).refcount == 1 && R (k).allow == (unsigned) S[k].allow, "post3 rule list unchanged");
     if (n == 0) __CPROVER_assert (pol.rules == NULL, "post3 empty rule list unchanged"); }
   /* vacuity guards */
 #if VERIF_GAP == 0
